@@ -290,7 +290,7 @@ def typed_op(rng):
         lambda: f"ds_parameter_set {u8(rng)}",
         lambda: f"cf_parameter_set {u8(rng)} {u8(rng)} {u16()} {u16()}",
         lambda: f"ibss_parameter_set {u16()}",
-        lambda: f"ibss_dfs {mac(rng).hex()} {u8(rng)} {pairs(rng, rng.choice([0, 1, 2, 5]))}",
+        lambda: f"ibss_dfs {mac(rng).hex()} {u8(rng)} {pairs(rng, rng.choice([1, 2, 5]))}",
         lambda: f"country {rb(rng, 3).hex()} {','.join(f'{u8(rng)}:{u8(rng)}:{u8(rng)}' for _ in range(rng.choice([1, 2, 3, 4])))}",
         lambda: f"fh_parameters {u8(rng)} {u8(rng)}",
         lambda: f"fh_pattern_table {u8(rng)} {u8(rng)} {u8(rng)} {u8(rng)} {hexs(rb(rng, rng.choice([0, 1, 4, 5, 20])))}",
